@@ -2,7 +2,7 @@
 evidence / replay / known-findings plumbing."""
 from __future__ import annotations
 import concurrent.futures as cf
-import fcntl, glob, hashlib, json, math, os, re, shutil, subprocess, sys, time
+import fcntl, glob, hashlib, json, math, os, re, shutil, subprocess, sys, threading, time
 
 VERIF = os.path.abspath(os.path.join(os.path.dirname(__file__), ".."))
 COQ = os.path.join(VERIF, "coq")
@@ -52,11 +52,45 @@ def regenerate(modules: list[str] | None):
     return man, errs
 
 
+COQ_ERROR_RE = re.compile(r"^Error", re.M)       # every failure of Coq itself prints a line starting with "Error"
+_SERIAL = threading.Lock()
+TRANSIENT = []                                    # log of retried commands (reported in the evidence)
+
+
+def transient(rc: int, output: str) -> bool:
+    """A coqc / make run that failed WITHOUT a Coq error message was killed from outside (out-of-memory killer or the
+    shell timeout on an overloaded machine): it says nothing about the development and is retried."""
+    return rc != 0 and not COQ_ERROR_RE.search(output or "")
+
+
+def run_coqc(cmd: list[str], cwd: str, merge_stderr=True):
+    """Run one coqc command; a run that dies without a Coq error is repeated (up to 3 more times, one at a time)."""
+    kw = dict(cwd=cwd, stdout=subprocess.PIPE, stderr=subprocess.STDOUT if merge_stderr else subprocess.PIPE, text=True)
+    r = subprocess.run(cmd, **kw)
+    for attempt in range(3):
+        if not transient(r.returncode, (r.stdout or "") + (r.stderr or "" if not merge_stderr else "")):
+            break
+        TRANSIENT.append({"cmd": " ".join(cmd[-2:]), "rc": r.returncode, "attempt": attempt + 1})
+        if r.returncode == 124 and attempt >= 1:      # the shell timeout fired twice: not a transient condition
+            break
+        time.sleep(5 * (attempt + 1))
+        with _SERIAL:
+            r = subprocess.run(cmd, **kw)
+    return r
+
+
 def make(targets: list[str], timeout=1500):
     """make the given .vo targets (relative to coq/).  Returns (ok, output)."""
     write_coqproject()
-    cmd = ["timeout", str(timeout), "make", "-k", f"-j{JOBS}"] + targets
-    r = subprocess.run(cmd, cwd=COQ, stdout=subprocess.PIPE, stderr=subprocess.STDOUT, text=True)
+    jobs = JOBS
+    for attempt in range(3):
+        cmd = ["timeout", str(timeout), "make", "-k", f"-j{jobs}"] + targets
+        r = subprocess.run(cmd, cwd=COQ, stdout=subprocess.PIPE, stderr=subprocess.STDOUT, text=True)
+        if not transient(r.returncode, r.stdout):
+            break
+        TRANSIENT.append({"cmd": "make", "rc": r.returncode, "attempt": attempt + 1})
+        jobs = max(2, jobs // 2)          # killed without a Coq error (memory pressure / overload): again, with fewer jobs
+        time.sleep(5)
     return r.returncode == 0, r.stdout
 
 
@@ -78,10 +112,9 @@ def check_obligations(pid: str, timeout=900):
     res = []
 
     def one(f):
-        r = subprocess.run(["timeout", "600", "coqc", "-Q", ".", "Inferno", "-w",
-                            "-inexact-float,-deprecated-syntactic-definition,-deprecated-instance-without-locality",
-                            os.path.relpath(f, COQ)],
-                           cwd=COQ, stdout=subprocess.PIPE, stderr=subprocess.STDOUT, text=True)
+        r = run_coqc(["timeout", "600", "coqc", "-Q", ".", "Inferno", "-w",
+                      "-inexact-float,-deprecated-syntactic-definition,-deprecated-instance-without-locality",
+                      os.path.relpath(f, COQ)], COQ)
         name = os.path.basename(f)[:-2]
         ass = []
         if r.returncode == 0:
@@ -189,8 +222,7 @@ def eval_terms(pid: str, header: str, terms: list[str], shard=150, tag="cases"):
 
     def run(a):
         p, n = a
-        r = subprocess.run(["timeout", "900", "coqc", "-Q", COQ, "Inferno", "-w", "-inexact-float", p],
-                           stdout=subprocess.PIPE, stderr=subprocess.PIPE, text=True, cwd=d)
+        r = run_coqc(["timeout", "900", "coqc", "-Q", COQ, "Inferno", "-w", "-inexact-float", p], d, merge_stderr=False)
         if r.returncode != 0:
             return [RuntimeError(f"coqc failed on {p}: {r.stderr[-800:]}")] * n
         chunks = re.split(r"\n\s*: tree\s*", r.stdout)
